@@ -99,6 +99,16 @@ def gen(seed, n):
         dt = rnd.choice(TABLES) if inv.dids is None else inv.dids
         h = cl.H(cfgv, dids=dt)
         ncalls = rnd.choice([1, 1, 2])
+        if rnd.random() < 0.25:
+            # what went before on this client: a session change the server answered with its own timings (adopted or not, depending on the
+            # edition and use_server_timing), possibly a configuration change after it
+            sess = rnd.choice([1, 2, 3, 0x40])
+            p2v, p2sv = rnd.choice([0, 1, 0x32, 0x1F4, 0xFFFF]), rnd.choice([0, 1, 0x64, 0x1F4, 0xFFFF])
+            h.call(2, [sess], [], [(10, bytes([0x50, sess, p2v >> 8, p2v & 0xFF, p2sv >> 8, p2sv & 0xFF]))])
+            if rnd.random() < 0.3:
+                slot = rnd.choice([cl.REQ_TO, cl.USE_SRV, cl.STD, cl.P2S])
+                h.set_cfg(slot, {cl.REQ_TO: rnd.choice([-1, 5000 * U, 0]), cl.USE_SRV: rnd.choice([0, 1]), cl.STD: rnd.choice([2006, 2013, 2020]),
+                                 cl.P2S: rnd.choice([0, 200 * U, 5000 * U])}[slot])
         for _ in range(ncalls):
             if rnd.random() < 0.5 or not variants[inv.name]:
                 args, blobs = list(inv.args), list(inv.blobs)
